@@ -171,7 +171,9 @@ def run(pid, tier, seed, a, t0):
     solver_s = discharge.discharge(allobls, timeout_s=timeout)
     xcheck = None
     if tier == "thorough" and not P.get("no_crosscheck"):
-        xcheck = discharge.cross_check(allobls, timeout_s=timeout)
+        # the cross-check re-discharges every proved obligation with two other solvers; each gets a fixed, modest budget per
+        # obligation (an `unknown` there is recorded, not a failure), so that the thorough tier stays within tens of minutes
+        xcheck = discharge.cross_check(allobls, timeout_s=min(timeout, 60))
         for sv, r in xcheck.items():
             if r["disagree"]:
                 print("CHECKER-ERROR solver disagreement %s: %s" % (sv, r["disagree"]))
